@@ -2,6 +2,7 @@ import Apko.Model.Tar
 import Apko.Proofs.Lemmas.TarWalk
 import Apko.Proofs.Lemmas.TarExtract
 import Apko.Proofs.Lemmas.TarWFReach
+import Apko.Proofs.Lemmas.TarWFGuard
 import Apko.Proofs.C17
 import Apko.Generated.Tar
 /-!
@@ -507,6 +508,29 @@ theorem extract_writeTar_partial_reachable (b : Backend) (c : Cfg) (ops : List O
     (h3 : xattrsCaptured (run c FS.empty ops).1 = true) :
     ∃ x, extract (writeTar b (run c FS.empty ops).1) = .ok x ∧ SameTree x (observeTree b (run c FS.empty ops).1) :=
   extract_writeTar_partial b _ (tar_wf_reachable_tarOK c ops hg) h1 h2 h3
+
+/-- **the guard is forced**, conjunct by conjunct (`Lemmas/TarWFGuard.lean`): the node `Mkdir`/`MkdirAll`,
+`Symlink`, `Mknod`, `WriteHeader` make is `nodeOK` *iff* the conjunct holds; for `OpenFile`/`WriteFile` iff it
+holds or the permission argument is a complete character-device mode; a `Chmod` argument with a type bit
+breaks the root directory or a plain regular file -/
+theorem opTarOK_forced :
+    (∀ perm, nodeOK (newDir (modeDir ||| perm)) = true ↔ perm.testBit 27 = false ∧ perm.testBit 21 = false) ∧
+    (∀ perm, nodeOK { mode := perm } = true ↔ noTypeBits perm = true ∨
+      (perm.testBit 31 = false ∧ perm.testBit 27 = false ∧ perm.testBit 26 = true ∧ perm.testBit 21 = true)) ∧
+    (∀ perm, noTypeBits perm = false →
+      nodeOK { rootInode with mode := typeKeep rootInode.mode perm } = false ∨
+      nodeOK { (default : Inode) with mode := typeKeep (default : Inode).mode perm } = false) ∧
+    (∀ target mt, nodeOK { mode := modeSymlink + 0o777, target := target, mtime := mt } = true ↔ target ≠ []) ∧
+    (∀ mode ma mi mt,
+      nodeOK { mode := mode ||| modeCharDevice ||| modeDevice, major := ma, minor := mi, mtime := mt } = true ↔
+        mode.testBit 31 = false ∧ mode.testBit 27 = false) ∧
+    (∀ (h : Hdr) (sum : Text), h.typeflag = 48 ∨ h.typeflag = 50 →
+      (nodeOK { mode := hdrMode h, mtime := h.mtime, target := h.linkname,
+                te := some { content := h.content, size := h.size, checksum := sum, pkgName := h.pkgName,
+                             pkgOrigin := h.pkgOrigin, pkgReplaces := h.pkgReplaces } } = true ↔
+        hdrTarOK h = true)) :=
+  ⟨nodeOK_newDir_iff, nodeOK_newFile_iff, chmod_guard_exact, nodeOK_newSymlink_iff, nodeOK_newDev_iff,
+   fun h sum hty => nodeOK_hdrNode_iff h sum hty⟩
 
 /-! ### the guard is satisfiable: a sequence with every kind of operation -/
 
